@@ -55,19 +55,26 @@ func (c10) Run(c *mon.Ctx, i int) {
 	}
 	var d gen.Data
 	var ops []gen.Op
-	switch i % 6 {
-	case 0:
+	switch sel := i % 6; {
+	case i%12 == 5:
+		// skewed data ending in three unique symbols (longest codes), flushed
+		d = gen.Data{Desc: "halving-frequencies+3 unique symbols", B: halvingData(r, r.Range(13, 15), (i/12)%48)}
+		tail := gen.Make(r, "text", 200).B
+		n0 := len(d.B)
+		d.B = append(d.B, tail...)
+		ops = []gen.Op{{Kind: "write", N: n0}, {Kind: "flush"}, {Kind: "write", N: len(tail)}, {Kind: "close"}}
+	case sel == 0:
 		// flush after every byte of a small input
 		d = gen.Make(r, gen.Families[r.Intn(8)], r.Range(0, 40))
 		for k := 0; k < len(d.B); k++ {
 			ops = append(ops, gen.Op{Kind: "write", N: 1}, gen.Op{Kind: "flush"})
 		}
 		ops = append(ops, gen.Op{Kind: "close"})
-	case 1:
+	case sel == 1:
 		// flush first, doubled, and with nothing pending
 		d = gen.Make(r, gen.Families[r.Intn(8)], r.Pick(0, 1, 2, 3, 100, 70000))
 		ops = []gen.Op{{Kind: "flush"}, {Kind: "flush"}, {Kind: "write", N: len(d.B)}, {Kind: "flush"}, {Kind: "flush"}, {Kind: "write", N: 0}, {Kind: "flush"}, {Kind: "close"}}
-	case 2:
+	case sel == 2:
 		// flush exactly at roll-overs
 		w := 32768
 		if s.Win4K {
